@@ -29,7 +29,10 @@ BOUND = {
 # as-built additions to the bound (kept next to BOUND so that the evidence reports them)
 BOUND = {k: v + "; plus: " + 'other row kinds and two-list forms of C07 with a text-for-its-own-cell oracle; both column orders; case-variant language tags; label-less choices; keyword-bearing element names; 8 delimiter spellings with optional spaces' for k, v in BOUND.items()}
 
-blocks = C07.blocks
+def blocks(tier):
+    # C07's corpus blocks check its own invariant only (there is no written-text model of arbitrary workbooks here)
+    return (b for b in C07.blocks(tier) if b[0] != "corpus")
+
 
 
 def expand(block, tier):
